@@ -121,21 +121,76 @@ func (c *FnCtx) setVal(v ssa.Value, x Val) {
 
 // ------------------------------------------------------------------ integer ops
 
+// valEq is Go's == on values of type t: strings compare by content, structs and arrays field-wise.
+func (c *FnCtx) valEq(x, y string, t types.Type) string {
+	switch u := t.Underlying().(type) {
+	case *types.Basic:
+		if u.Info()&types.IsString != 0 {
+			c.declStrings()
+			return "(streq " + x + " " + y + ")"
+		}
+	case *types.Struct:
+		if !typeHasString(t, 0) {
+			return eq(x, y)
+		}
+		c.sortOf(t)
+		var fs []string
+		for i := 0; i < u.NumFields(); i++ {
+			acc := c.fieldAcc(t, i)
+			fs = append(fs, c.valEq("("+acc+" "+x+")", "("+acc+" "+y+")", u.Field(i).Type()))
+		}
+		return and(fs...)
+	case *types.Array:
+		if typeHasString(u.Elem(), 0) {
+			if u.Len() > 8 {
+				c.unsup("comparison of large arrays of strings")
+			}
+			var fs []string
+			for i := int64(0); i < u.Len(); i++ {
+				fs = append(fs, c.valEq(sel(x, c.mode.idxLit(i)), sel(y, c.mode.idxLit(i)), u.Elem()))
+			}
+			return and(fs...)
+		}
+	case *types.Slice:
+		// Go code can only compare a slice with nil (a nil slice has region 0); specs compare headers
+		z := c.zero(t)
+		if x == z {
+			return eq("(s_reg "+y+")", "0")
+		}
+		if y == z {
+			return eq("(s_reg "+x+")", "0")
+		}
+		return eq(x, y)
+	}
+	return eq(x, y)
+}
+
+func typeHasString(t types.Type, depth int) bool {
+	if depth > 6 {
+		return false
+	}
+	switch u := t.Underlying().(type) {
+	case *types.Basic:
+		return u.Info()&types.IsString != 0
+	case *types.Struct:
+		for i := 0; i < u.NumFields(); i++ {
+			if typeHasString(u.Field(i).Type(), depth+1) {
+				return true
+			}
+		}
+	case *types.Array:
+		return typeHasString(u.Elem(), depth+1)
+	}
+	return false
+}
+
 func (c *FnCtx) cmpOp(op token.Token, x, y string, t types.Type) string {
 	ii, isInt := intInfoOf(t)
 	switch op {
 	case token.EQL:
-		if b, ok := t.Underlying().(*types.Basic); ok && b.Info()&types.IsString != 0 {
-			c.declStrings()
-			return "(streq " + x + " " + y + ")"
-		}
-		return eq(x, y)
+		return c.valEq(x, y, t)
 	case token.NEQ:
-		if b, ok := t.Underlying().(*types.Basic); ok && b.Info()&types.IsString != 0 {
-			c.declStrings()
-			return "(not (streq " + x + " " + y + "))"
-		}
-		return not(eq(x, y))
+		return not(c.valEq(x, y, t))
 	}
 	if !isInt {
 		c.unsup("ordering comparison on %s", t)
